@@ -46,6 +46,9 @@ def impl_eval(case):
             else:
                 ocf = PreOCF.init_custom(dict(ranks), signature=list(names))
             out["frank"] = [ocf.formula_rank(core.f_pysmt(f, names)) for f in case["formulas"]]
+            if case.get("xformulas"):
+                xnames = list(names) + ["zx"]      # an atom outside the ranking's signature: every world may choose it freely
+                out["xfrank"] = [ocf.formula_rank(core.f_pysmt(f, xnames)) for f in case["xformulas"]]
             out["accept"] = [bool(ocf.conditional_acceptance(Conditional(core.f_pysmt(b, names), core.f_pysmt(a, names), "c")))
                              for b, a in case["conds"]]
             out["marg"] = []
@@ -82,6 +85,9 @@ def driver_lines(case):
     for i, f in enumerate(case["formulas"]):
         lines.append(f"frank {n} {rk} {core.f_prefix(f)}")
         tags.append(("frank", i))
+    for i, f in enumerate(case.get("xformulas") or []):
+        lines.append(f"frank {n + 1} {rk} {rk} {core.f_prefix(f)}")        # the rank of a world over n+1 atoms is that of its projection
+        tags.append(("xfrank", i))
     for i, (b, a) in enumerate(case["conds"]):
         lines.append(f"accept {n} {rk} {core.cond_prefix(0, (b, a))}")
         tags.append(("accept", i))
@@ -123,6 +129,10 @@ def compare(case, impl, resp, tags):
             want = None if r == "none" else int(r)
             if impl["frank"][t[1]] != want:
                 fail("formula_rank", case["formulas"][t[1]], impl["frank"][t[1]], want)
+        elif t[0] == "xfrank":
+            want = None if r == "none" else int(r)
+            if impl.get("xfrank", [None] * 9)[t[1]] != want:
+                fail("formula_rank (formula with an atom outside the signature)", case["xformulas"][t[1]], impl.get("xfrank", [None] * 9)[t[1]], want)
         elif t[0] == "accept":
             if impl["accept"][t[1]] != (r == "1"):
                 fail("conditional_acceptance", case["conds"][t[1]], impl["accept"][t[1]], r == "1")
@@ -225,12 +235,17 @@ def gen_case(rng, n=None, max_rank=6):
     m = len(distinct)
     incr = sorted(rng.sample(range(0, 3 * m + 3), m))
     arbitrary = [rng.randint(0, 5) for _ in range(m)]
+    xformulas = None
+    if n <= 5 and rng.random() < 0.3:
+        zx = ("a", n)
+        f0 = core.gen_formula(rng, n, 2, 0.0)
+        xformulas = [("&", f0, zx), ("|", f0, ("!", zx)), ("&", ("!", zx), core.gen_formula(rng, n + 1, 2, 0.0))]
     with_bb = None
     if n >= 2 and rng.random() < 0.25:
         with_bb = rng.sample(range(n), rng.randint(1, n))
         if with_bb == list(range(n)):
             with_bb = with_bb[::-1]
-    return {"n": n, "ranks": ranks, "formulas": formulas, "conds": conds, "drops": drops, "marg_formulas": margf, "with_bb": with_bb,
+    return {"n": n, "ranks": ranks, "formulas": formulas, "conds": conds, "drops": drops, "marg_formulas": margf, "with_bb": with_bb, "xformulas": xformulas,
             "numberings": [distinct, incr, arbitrary]}
 
 
